@@ -88,6 +88,8 @@ class PlanJoinTablesQuery:
 
         # index to lookup tables
         self.tables_idx = None
+        # names that are used by more than one table of the query
+        self.ambiguous_names = set()
         self.tables = []
         self.tables_fetch_step = {}
 
@@ -156,13 +158,25 @@ class PlanJoinTablesQuery:
 
         return TableInfo(integration, table, aliases, conditions=[], sub_select=sub_select)
 
+    def get_table_by_name(self, parts):
+        # to lowercase
+        parts = tuple(map(str.lower, parts))
+        if parts in self.ambiguous_names:
+            raise PlanningException(f"Table name is ambiguous: {'.'.join(parts)}")
+        if parts in self.tables_idx:
+            return self.tables_idx[parts]
+
     def get_table_for_column(self, column: Identifier):
         if not isinstance(column, Identifier):
             return
-        # to lowercase
-        parts = tuple(map(str.lower, column.parts[:-1]))
-        if parts in self.tables_idx:
-            return self.tables_idx[parts]
+        return self.get_table_by_name(column.parts[:-1])
+
+    def get_table_name(self, table_info):
+        # the shortest name of the table that no other table of the query has
+        for alias in reversed(table_info.aliases):
+            if alias not in self.ambiguous_names:
+                return alias
+        raise PlanningException(f'Table name is not unique, alias is required: {table_info.table.to_string()}')
 
     def get_join_sequence(self, node, condition=None, join_type=None):
         sequence = []
@@ -171,7 +185,12 @@ class PlanJoinTablesQuery:
 
             table_info = self.resolve_table(node)
             for alias in table_info.aliases:
-                self.tables_idx[alias] = table_info
+                if alias in self.tables_idx or alias in self.ambiguous_names:
+                    # the name stands for two tables, for example the last part of 'int1.tab' and 'int2.tab'
+                    self.tables_idx.pop(alias, None)
+                    self.ambiguous_names.add(alias)
+                else:
+                    self.tables_idx[alias] = table_info
 
             table_info.index = len(self.tables)
             self.tables.append(table_info)
@@ -411,7 +430,7 @@ class PlanJoinTablesQuery:
                         raise PlanningException(f'Table not found for identifier: {node.to_string()}')
 
                     # # replace identifies name
-                    col_parts = list(table_info.aliases[-1])
+                    col_parts = list(self.get_table_name(table_info))
                     col_parts.append(node.parts[-1])
                     node.parts = col_parts
 
@@ -701,7 +720,7 @@ class PlanJoinTablesQuery:
                 #   or without namespace). Other dots are a part of the option: it is for every model
                 parts = param.split('.')
                 for i in range(len(parts) - 1, 0, -1):
-                    table_info = self.tables_idx.get(tuple(map(str.lower, parts[:i])))
+                    table_info = self.get_table_by_name(parts[:i])
                     if table_info is not None:
                         param = '.'.join(parts[i:])
                         break
